@@ -27,8 +27,10 @@ struct TrainT {
     id: u8,
     pkts: Vec<Vec<u8>>,
     prime: Option<Vec<u8>>,
-    /// byte ranges (per packet) of the CRC-protected bytes: total length, type, label, payload, trailer
-    protected: Vec<std::ops::Range<usize>>,
+    /// per packet: the runs of CRC-protected bytes (total length, protocol type, label, payload, trailer); each
+    /// run is contiguous on the wire AND in the CRC codeword, so a burst inside one run is a burst of the
+    /// same length in the codeword.  Extension headers are not CRC-protected.
+    protected: Vec<Vec<std::ops::Range<usize>>>,
     payload_len: Vec<usize>,
 }
 
@@ -62,8 +64,20 @@ fn build(rng: &mut Rng, plen: usize, npk: usize, rep: &mut Report) -> Option<Tra
     }
     let ll = if primed { 0 } else { label_bytes(&label).len() };
     let per = std::cmp::max(1, plen / npk);
-    let first_buf = 7 + ll + per;
-    let t = build_train(&mut enc, &pdu, id, meta, None, |k| if k == 0 { first_buf } else if k + 1 < npk { 3 + per } else { 4097 }, 16).ok()?;
+    // one train in four carries optional extension headers (the delivered metadata must keep them)
+    let exts: Option<Vec<dvb_gse_rust::header_extension::Extension>> = if rng.chance(1, 4) {
+        let d = rng.bytes(2);
+        let mut v = vec![dvb_gse_rust::header_extension::Extension::new(0x0200 | rng.byte() as u16, &d).ok()?];
+        if rng.chance(1, 2) {
+            v.push(dvb_gse_rust::header_extension::Extension::new(0x0100 | rng.byte() as u16, &[]).ok()?);
+        }
+        Some(v)
+    } else {
+        None
+    };
+    let ext_len: usize = exts.as_ref().map(|v| v.iter().map(|e| e.len()).sum()).unwrap_or(0);
+    let first_buf = 7 + ll + ext_len + per;
+    let t = build_train(&mut enc, &pdu, id, meta, exts, |k| if k == 0 { first_buf } else if k + 1 < npk { 3 + per } else { 4097 }, 16).ok()?;
     if !t.complete || t.pkts.len() < 2 {
         rep.count("c03.train-not-fragmented");
         return None;
@@ -75,10 +89,24 @@ fn build(rng: &mut Rng, plen: usize, npk: usize, rep: &mut Report) -> Option<Tra
         let pp = wire::parse(p, &table).ok()?;
         payload_len.push(pp.payload.len());
         protected.push(match pp.kind {
-            Kind::First => 3..p.len(),
-            Kind::Inter => 3..p.len(),
-            Kind::End => 3..p.len(),
-            Kind::Complete => 2..p.len(),
+            Kind::First if pp.exts.is_empty() => vec![3..p.len()],
+            Kind::First => {
+                // frag id | total length | first extension id | label | extension data .. | protocol type | payload
+                let ll = pp.label.len();
+                let pt = pp.payload.start - 2..pp.payload.start;
+                let mut v = vec![3..5];
+                if ll > 0 {
+                    v.push(7..7 + ll);
+                }
+                v.push(pt);
+                if !pp.payload.is_empty() {
+                    v.push(pp.payload.clone());
+                }
+                v
+            }
+            Kind::Inter => vec![3..p.len()],
+            Kind::End => vec![3..p.len()],
+            Kind::Complete => vec![2..p.len()],
         });
     }
     Some(TrainT { pdu, label, ptype, id, pkts: t.pkts, prime, protected, payload_len })
@@ -185,15 +213,16 @@ impl Property for Prop {
                             }
                             let mut pk = t.pkts.clone();
                             pk[pi][bit / 8] ^= 0x80 >> (bit % 8);
-                            let inside = prot.contains(&(bit / 8));
+                            let inside = prot.iter().any(|r| r.contains(&(bit / 8)));
                             let exp = if inside { Expect::NoDelivery } else { Expect::SpecOnly };
                             feed(&t, &pk, storage, exp, if inside { "bitflip-protected" } else { "bitflip-header" }, rep, &replay);
                             rep.nontrivial(mix(tfp, (pi * 100_000 + bit) as u64));
                         }
                         // bursts confined to the protected bytes: every start bit x every length
                         let nb_pat = if cx.quick() { 1 } else { 3 };
-                        let lo = prot.start * 8;
-                        let hi = prot.end * 8;
+                        for run in prot.iter() {
+                        let lo = run.start * 8;
+                        let hi = run.end * 8;
                         for start in lo..hi {
                             if crate::expired() {
                                 return;
@@ -217,6 +246,7 @@ impl Property for Prop {
                             }
                             rep.nontrivial(mix(tfp, (pi * 100_000 + start) as u64 | 1 << 50));
                         }
+                        }
                         // truncation at every byte
                         for cut in 0..plen_b {
                             let mut pk = t.pkts.clone();
@@ -235,6 +265,15 @@ impl Property for Prop {
                             let mut pk = t.pkts.clone();
                             pk.swap(pi, pi + 1);
                             feed(&t, &pk, storage, Expect::EqualIfDelivered, "swap", rep, &replay);
+                        }
+                        // a duplicate of this fragment with one of its 16 header bits flipped (a second copy that the
+                        // receiver may refuse, but that belongs to the arrival-order concatenation if it parses)
+                        for hb in 0..16usize {
+                            let mut dupe = t.pkts[pi].clone();
+                            dupe[hb / 8] ^= 0x80 >> (hb % 8);
+                            let mut pk = t.pkts.clone();
+                            pk.insert(pi + 1, dupe);
+                            feed(&t, &pk, storage, Expect::SpecOnly, "duplicate-with-header-bit-flip", rep, &replay);
                         }
                         // frag id field <- all values
                         for v in 0..=255u8 {
@@ -550,6 +589,7 @@ impl Property for Prop {
                 let crc = fr.gse(seal_total, ptype, &wl, &seal_bytes);
                 let mut pkts = Vec::new();
                 let mut off = 0usize;
+                let dup_last_inter = !overlay && rng.chance(1, 2);
                 for (k, n) in sizes.iter().enumerate() {
                     let last = k + 1 == sizes.len();
                     if k == 0 {
@@ -560,6 +600,13 @@ impl Property for Prop {
                         pkts.push(mk_inter(id, &data[off..off + n]));
                     }
                     off += n;
+                }
+                if dup_last_inter && pkts.len() >= 3 {
+                    // the last intermediate fragment arrives twice: the received length exceeds what was announced
+                    // (and, for a maximal PDU, the 16-bit range); nothing may be delivered
+                    let i = pkts.len() - 2;
+                    let c = pkts[i].clone();
+                    pkts.insert(i + 1, c);
                 }
                 let table = MandTable::none();
                 let mut d = plain_dec(1, storage, 1, storage, table.clone());
@@ -576,13 +623,13 @@ impl Property for Prop {
                     rx.observe(p, &r, RX_C03, class, rep, &replay);
                     if let Ok(Ok((DecapStatus::CompletedPkt(b, m), _))) = r {
                         delivered = true;
-                        if overlay {
-                            rep.violation("C03", format!("delivered-despite-fault:{}", class), || format!("{}: {} payload bytes received under an announced total length of {}; a PDU of {} bytes was delivered", class, r_len, seal_total, m.pdu_len()), &replay);
+                        if overlay || dup_last_inter {
+                            rep.violation("C03", format!("delivered-despite-fault:{}{}", class, if dup_last_inter { "+last-intermediate-duplicated" } else { "" }), || format!("{}: {} payload bytes received under an announced total length of {}; a PDU of {} bytes was delivered", class, r_len, seal_total, m.pdu_len()), &replay);
                         }
                         let _ = d.provision_storage(b);
                     }
                 }
-                rep.count(&format!("c03.{}.{}", class, if delivered { "delivered" } else { "rejected" }));
+                rep.count(&format!("c03.{}{}.{}", class, if dup_last_inter { "+dup" } else { "" }, if delivered { "delivered" } else { "rejected" }));
                 rep.nontrivial(mix(key, r_len as u64));
                 if key < 2 {
                     rep.sample(|| format!("big: {} ({} payload bytes in {} packets, announced total length {}, storage {}B) -> delivered={}", class, r_len, pkts.len(), seal_total, storage, delivered));
